@@ -10,6 +10,7 @@ All theorems hold for every component family `c` (arbitrary deterministic params
 functions, raising or not), every triple list, every configuration and every schedule.
 -/
 import CobaVerif.Lemmas.C01
+import CobaVerif.Generated.C01Config
 
 namespace Coba.C01
 
@@ -230,5 +231,103 @@ example (c : Comps S P Row) (seed : Nat) (ts : List Triple) :
     (doneRecs c seed ts (fun _ => false) : List (Rec P Row)) = [] := by simp [doneRecs]
 
 example : (doneRecs (leakyComps.clean leakyTriples) 1 leakyTriples (fun t => t.tkey.1 == 4)).length = 2 := by decide +kernel
+
+/-! ## phase 4 (a): resumed runs with process state -/
+
+section phase4
+variable {G : Type}
+
+/-- `run_eq_spec_restored` with process state: under the isolation hypothesis a run resumed from a log holding (in any
+order) the records of ANY set of finished tasks — started in any clean state of the caller's process, under any
+configuration, chunk-to-worker assignment, retirement (`maxchunksperchild`) and interleaving, with un-copyable shared
+learners raising inside the per-task `try` — gives exactly the specified Result, and leaves the process clean -/
+theorem run_eq_spec_restored_process_state (cp : CompsP G S P Row) (Clean : G → Prop) (hc : ProcessLocalClean cp Clean)
+    (cfg : Cfg) (sched : Sched) (seed : Nat) (ts : List Triple) (σ : G) (hσ : Clean σ)
+    (done : Task → Bool) (old : List (Rec P Row)) (hold : old.Perm (doneRecs (cp.clean ts) seed ts done)) :
+    runResumedPFrom cp cfg sched seed σ ts old = resultSP cp seed ts ∧
+      Clean (runEventsOnPFrom cp cfg sched seed σ (resumedTasks old ts)).2.1 :=
+  ⟨runResumedPFrom_eq_spec' hc cfg sched seed ts σ hσ done old hold, resumed_state_clean' hc cfg sched seed ts σ hσ old⟩
+
+/-- `resumed_eq_fresh` with process state σ: … hence the resumed run (any clean σ, any cfg / schedule) equals the
+fresh run under any other configuration and schedule from any other clean state -/
+theorem resumed_eq_fresh_process_state (cp : CompsP G S P Row) (Clean : G → Prop) (hc : ProcessLocalClean cp Clean)
+    (cfg cfg' : Cfg) (sched sched' : Sched) (seed : Nat) (ts : List Triple) (σ σ' : G) (hσ : Clean σ) (hσ' : Clean σ')
+    (done : Task → Bool) :
+    runResumedPFrom cp cfg sched seed σ ts (doneRecs (cp.clean ts) seed ts done) = runPFrom cp cfg' sched' seed σ' ts := by
+  rw [runResumedPFrom_eq_spec' hc cfg sched seed ts σ hσ done _ (List.Perm.refl _), runPFrom_eq_spec' hc cfg' sched' seed ts σ' hσ']
+
+/-- the hypotheses are satisfiable non-trivially: σ-ignoring components are clean, `doneRecs` of "nothing done" is the
+empty log -/
+example (cp : CompsP G S P Row) (seed : Nat) (ts : List Triple) :
+    (doneRecs (cp.clean ts) seed ts (fun _ => false) : List (Rec P Row)) = [] := by simp [doneRecs]
+
+/-- the hypothesis is forced for resumed runs too: with `leakyComps` the run resumed in-process after the first
+evaluation was restored differs from the fresh in-process run -/
+theorem resumed_differs_counterexample :
+    (runResumedP leakyComps ⟨1, 0, 0⟩ ⟨[], []⟩ 1 leakyTriples [Rec.T4 (0, 0, 0) [0]]).ints ≠
+      (runP leakyComps ⟨1, 0, 0⟩ ⟨[], []⟩ 1 leakyTriples).ints := by
+  rw [leaky_resumed_ints', leaky_inprocess_ints']; decide
+
+end phase4
+
+/-! ## phase 4 (b): the Result of a whole `Experiment.run` over the built-in `SequentialCB`
+
+`seqComps w` plugs the model of `SequentialCB.evaluate` (`Model/C06.evaluate`: validation, predict / score / learn passes
+per batch, recorded rows) into the experiment model, for any assignment `w` of SequentialCB configurations to evaluator
+objects, of learner methods + pristine state to learner objects and of interactions (or a failing read) to environment
+objects. -/
+
+section phase4b
+variable {σ V R : Type} [DecidableEq V] [Coba.C06.RewardFn R V]
+
+/-- `run_eq_spec` instantiated with the C06 evaluator: for every configuration and schedule the Result of the
+experiment over SequentialCB is the specified one -/
+theorem run_eq_spec_sequentialCB (w : SeqWorld σ V R P) (cfg : Cfg) (picks : List Nat) (seed : Nat) (ts : List Triple) :
+    run (seqComps w) cfg picks seed ts = resultS (seqComps w) seed ts := run_eq_spec' (seqComps w) cfg picks seed ts
+
+/-- configuration independence for experiments over SequentialCB -/
+theorem sequentialCB_config_independent (w : SeqWorld σ V R P) (cfg cfg' : Cfg) (picks picks' : List Nat) (seed : Nat)
+    (ts : List Triple) : run (seqComps w) cfg picks seed ts = run (seqComps w) cfg' picks' seed ts := by
+  rw [run_eq_spec' (seqComps w) cfg picks seed ts, run_eq_spec' (seqComps w) cfg' picks' seed ts]
+
+/-- … and the spec unfolded: the interaction rows of a listed triple are, numbered from 1, the rows
+`SequentialCB(cfgOf v).evaluate(env e, learner l)` produces from the learner's PRISTINE state (none when the evaluator
+rejects the environment or the evaluation crashes) — whatever else the experiment lists, in every configuration -/
+theorem sequentialCB_rows (w : SeqWorld σ V R P) (cfg : Cfg) (picks : List Nat) (seed : Nat) (ts : List Triple)
+    (t : Triple) (ht : t ∈ ts) (inter : List (Coba.C06.Dict (Coba.C06.Fld V R))) (henv : w.envRows t.1 = .ok inter) :
+    (run (seqComps w) cfg picks seed ts).rowsOf (idKey ts t) =
+      match Coba.C06.evaluate (w.cfgOf t.2.2) (w.learner t.2.1) (w.batch t.1) inter (w.init t.2.1) with
+      | .ok r => numbered r.2.2
+      | .rejected _ => []
+      | .crashed _ => [] := sequentialCB_rows' w cfg picks seed ts t ht inter henv
+
+/-- a failing read of the environment costs exactly that triple's rows -/
+theorem sequentialCB_read_failure (w : SeqWorld σ V R P) (cfg : Cfg) (picks : List Nat) (seed : Nat) (ts : List Triple)
+    (t : Triple) (ht : t ∈ ts) (err : Err) (henv : w.envRows t.1 = .error err) :
+    (run (seqComps w) cfg picks seed ts).rowsOf (idKey ts t) = [] :=
+  sequentialCB_read_failure' w cfg picks seed ts t ht err henv
+
+end phase4b
+
+/-! ## phase 4 (c): translator obligations — `Generated/C01Config.lean` is re-extracted from the source on every run -/
+
+/-- the model's `Cfg.multi` is the `is_multiproc` expression of `Experiment.run` as it stands in the source -/
+theorem config_multi_matches_source (c : Cfg) : c.multi = Coba.Generated.C01.isMultiproc c.mp c.mc := by
+  simp [Cfg.multi, Coba.Generated.C01.isMultiproc]
+
+/-- two sites that must agree: `CobaMultiprocessor.filter` runs the tasks in the calling process exactly when
+`Experiment.run` considers the run not multi-process (for every `processes ≥ 1`, every `maxchunksperchild`) -/
+theorem inprocess_test_agrees_with_is_multiproc (c : Cfg) (h : 1 ≤ c.mp) :
+    Coba.Generated.C01.inProcess c.mp c.mc = !c.multi := by
+  rw [Bool.eq_iff_iff]
+  simp [Cfg.multi, Coba.Generated.C01.inProcess]
+  omega
+
+/-- the `copy` flag of every evaluation task the model lists is the source's `copy=` expression applied to the
+number of listed triples with that learner object -/
+theorem copy_flag_matches_source (ts : List Triple) (ei e li l vi v : Nat) (cp : Bool)
+    (h : Task.eval ei e li l vi v cp ∈ makeTasks .none ts) :
+    cp = Coba.Generated.C01.copyFlag (lrnCount ts l) ∧ Coba.Generated.C01.copyCountsLearners = true :=
+  ⟨by rw [(mem_makeTasks_eval h).2.2]; simp [Coba.Generated.C01.copyFlag], by decide⟩
 
 end Coba.C01
